@@ -690,6 +690,23 @@ func (d *Drv) exec(op *Op, x *Exp) {
 				d.SF = append(d.SF, sfilter{})
 			}
 			d.SF[op.SF] = sfilter{inst: d.buildTyped(op.F), twin: d.buildTyped(op.F)}
+			if d.opIdx%2 == 0 {
+				// a Batch value derived from the new filter objects with a per-call target, and dropped: it has no effect,
+				// but it leaves spare capacity in the filter's relation list - later queries with per-query targets
+				// (several of them open at once) must still get lists of their own
+				var free []RelT
+				fixed := relComps(op.F.Rels)
+				for _, c := range d.filterOrder(op.F) {
+					if u.Types[c].IsRel && !fixed.Has(c) {
+						free = append(free, RelT{C: c, T: ZeroE})
+					}
+				}
+				if len(free) > 0 {
+					d.Stat.FilterSpareBatch++
+					_ = d.SF[op.SF].inst.Batch(d.rels(free[:1], d.filterOrder(op.F), d.opIdx%3))
+					_ = d.SF[op.SF].twin.Batch(d.rels(free[:1], d.filterOrder(op.F), d.opIdx%3))
+				}
+			}
 		}
 		d.SF[op.SF].inst.Register()
 	case KUnregFilter:
